@@ -4,13 +4,15 @@ C03 — Concatenated appendable/catable streams decode to the concatenated conte
 Bit-level part proved here (the entropy decoder is outside this model): the
 concatenator's header and trailer surgery is exact at the bit level.
 
-Property theorems ONLY (helper lemmas: BV/Lemmas/ConcatBits.lean, ConcatSplice.lean).
+Property theorems ONLY (helper lemmas: BV/Lemmas/ConcatBits.lean, ConcatSplice.lean, ConcatMember*.lean,
+ConcatWhole.lean, ConcatChain.lean).
 Model: BV/Model/Concat.lean; `bitsOf n v` is the LSB-first bit string of the low
 `n` bits of `v`, `bytesToBits` the bit string of a byte string,
 `encodeWindowBits` mirrors `EncodeWindowBits` of `src/enc/encode.rs`.
 -/
 import BV.Lemmas.ConcatBits
 import BV.Lemmas.ConcatSplice
+import BV.Lemmas.ConcatChain
 
 namespace BV.Props.C03
 open BV.Concat BV.Concat.Outcome
@@ -282,5 +284,76 @@ theorem short_member_after_top_marker :
      (finish r2.st 10).bind fun r3 => ok (r1.produced ++ r2.produced ++ r3.produced, r3.code))
     = ok ([0x8b, 0x01, 0x80, 0x03, 0x61, 0x62, 0x63, 0xd5], SUCCESS) := by
   decide
+
+/-! ## the whole output -/
+
+/-- one later member, any slicing, any capacities: the previous end marker disappears, the
+member's window field is dropped, its first meta-block header bits are glued behind the previous
+data bits, zero padding up to the byte boundary, and the rest of the member follows unchanged;
+the run ends in pass-through (`Boundary` = pass-through with a full 2-byte tail holding the
+member's own end marker). -/
+theorem member_step (fuel : Nat) (s : State) (acc : List Nat) (n D : Nat) (data : List Bool) (d : MemberData)
+    (bufs : List (List Nat)) (caps : List Nat) (R : Run)
+    (hB : Boundary s acc n D data) (hok : MemberOK s.window_size d) (hne : bufs ≠ []) (hfl : bufs.flatten = d.m)
+    (h : runAll fuel (newBrotliFile s) bufs caps acc = some R) :
+    R.code = NEEDS_MORE_INPUT ∧ R.st.window_size = s.window_size ∧
+    Boundary R.st R.emitted d.n d.D (data ++ gapBits n d ++ restData d) :=
+  boundary_step fuel s acc n D data d bufs caps R hB hok hne hfl h
+
+/-- `concat_bits`.  Members `m₀, d₁.m, …, d_k.m`, each ending with its end marker in its last
+two bytes (on `n₀`, `dᵢ.n` data bits); `m₀` has a parsable window field and is fed to an
+instance that has emitted no header yet; every later member is acceptable behind `m₀`'s header
+(`MemberOK`: window not larger, same header form, first meta-block is metadata / uncompressed /
+empty-last with its header inside the look-ahead, at least one byte after the look-ahead).
+For ANY slicing of every member into input buffers and ANY output capacity schedules (`Fed`):
+all `stream` calls end with `NeedsMoreInput`, `finish` (room ≥ 2) reports `Success`, and the
+complete output, as an LSB-first bit string, is
+
+   bits(m₀ without its marker)                           -- = W₀ ++ body₀
+   ++ Σᵢ ( hdrBitsᵢ[woᵢ ..< vᵢ] ++ 0-padding to the byte boundary ++ bits(dᵢ.m[⌈vᵢ/8⌉ ..] without its marker) )
+   ++ [1,1] ++ 0-padding                                 -- the last member's own end marker
+
+(`laterBits`; the padding inside member `i` is re-computed for its new bit position, which is
+what a decoder skips at that place).  Only the last end marker survives. -/
+theorem concat_bits (fuel : Nat) (s : State) (m0 pre0 : List Nat) (a0 b0 n0 D0 wsz0 wo0 : Nat)
+    (bufs0 : List (List Nat)) (caps0 : List Nat) (ds : List MemberData)
+    (rest : List (List (List Nat) × List Nat)) (R : Run) (cap : Nat)
+    (hI : Inv s) (hws : s.window_size = 0)
+    (hbytes : ∀ y, y ∈ m0 → y < 256) (hlong : need (m0.headD 0) + 1 ≤ m0.length)
+    (hparse : parseWindowSize (m0.take (need (m0.headD 0))) = ok (some (wsz0, wo0)))
+    (hm0 : m0 = pre0 ++ [a0, b0]) (hmark : Marked (a0 + (b0 <<< 8)) n0 D0)
+    (hne0 : bufs0 ≠ []) (hfl0 : bufs0.flatten = m0)
+    (hok : ∀ d, d ∈ ds → MemberOK (wsz0 ||| (if wo0 = 14 then LARGE_WINDOW_FLAG else 0)) d)
+    (hfed : Fed ds rest) (hcap : 2 ≤ cap)
+    (h : concatAll fuel s ((bufs0, caps0) :: rest) [] = some R) :
+    R.code = NEEDS_MORE_INPUT ∧
+    ∃ st p, finish R.st cap = ok ⟨st, SUCCESS, 0, p⟩ ∧
+      bytesToBits (R.emitted ++ p) =
+        bytesToBits pre0 ++ bitsOf n0 D0 ++ laterBits n0 ds ++ [true, true] ++
+          List.replicate (14 - lastN n0 ds) false := by
+  unfold concatAll at h
+  cases hr : runAll fuel (newBrotliFile s) bufs0 caps0 [] with
+  | none => rw [hr] at h; simp at h
+  | some r =>
+    rw [hr] at h
+    dsimp only at h
+    obtain ⟨hcode, hwsr, hB⟩ := first_boundary fuel s m0 pre0 a0 b0 n0 D0 wsz0 wo0 bufs0 caps0 r hI hws hbytes
+      hlong hparse hm0 hmark hne0 hfl0 hr
+    have hnt : isTerminal r.code = false := by rw [hcode]; rfl
+    rw [hnt] at h
+    simp only [Bool.false_eq_true, if_false] at h
+    obtain ⟨hc, D', hfin⟩ := later_members fuel ds rest hfed r.st r.emitted n0 D0 _ R hB
+      (fun d hd => by rw [hwsr]; exact hok d hd) h
+    obtain ⟨st, p, hf, hbits⟩ := finish_boundary R.st R.emitted _ D' _ cap hfin hcap
+    exact ⟨hc, st, p, hf, by rw [hbits]⟩
+
+/-- non-vacuity: first member `8b 01 80 03 61 62 63 03` (parsable header; end marker on 8 data
+bits in its last two bytes `63 03`), second member `3b 00 00 00 03` (4 window bits, ISLAST +
+ISLASTEMPTY, then whole bytes), both in odd slices with small capacities: the marker `03` of the
+first member is replaced by the second member's two header bits (again `03`), then `00 00 00 03` -/
+example : ∃ R, concatAll 30 State.new [([[0x8b, 0x01], [0x80, 0x03, 0x61, 0x62, 0x63, 0x03]], [0, 3, 1]),
+      ([[0x3b], [0x00, 0x00, 0x00, 0x03]], [1, 0, 2])] [] = some R ∧ R.code = NEEDS_MORE_INPUT ∧
+    R.emitted ++ held R.st = [0x8b, 0x01, 0x80, 0x03, 0x61, 0x62, 0x63, 0x03, 0x00, 0x00, 0x00, 0x03] := by
+  refine ⟨_, rfl, ?_, ?_⟩ <;> decide
 
 end BV.Props.C03
